@@ -105,6 +105,17 @@ def driver_line(case, r, with_impl=True):
                 seen.add(s); fields.append("%s=%s" % (s, t))
     return "\t".join(fields)
 
+def model_out_with_sc(case, r, sc):
+    """the model's final output for `case` when the self-check outcome is `sc` (oracle data taken from the implementation run)"""
+    line = driver_line(case, r, with_impl=False).split('\t')
+    line[4] = sc
+    p = subprocess.run([DRIVER, os.path.join(BUILD, 'engine_d.txt')], input=('\t'.join(line) + '\n').encode(), capture_output=True)
+    for l in p.stdout.decode('utf-8', 'replace').splitlines():
+        parts = l.split('\t')
+        if len(parts) == 3 and parts[1] == 'out':
+            return parts[2]
+    return None
+
 def run_model(cases, impl):
     lines = [driver_line(c, impl[c["id"]]) for c in cases if c["id"] in impl and "harness_panic" not in impl[c["id"]]]
     # shard over 16 driver processes
